@@ -293,7 +293,7 @@ func init() {
 			"Invariants asserted after EVERY Set/Compact; full word-by-word comparison and Get/Get1 sweeps at quiescent points (every 8 ops; every 4096 ops in long histories) and around every Compact. " +
 			"distinct_nontrivial counts distinct abstract states (Offset advance in words, len(Words)) x history hash of histories in which Offset moved.",
 		Assumptions: []string{"Get only below the end of the stored words; indexes >= 0; o a multiple of 64", "no claim about memory use (Compact's reallocation result is discarded by the library; noted in DESIGN.md 4.4)"},
-		Flavours:    releaseOnly,
+		Flavours:    releaseThenGo126,
 		Required:    req,
 		Families: func(c *mon.Config) []mon.Family {
 			return []mon.Family{
